@@ -8,6 +8,7 @@ import (
 	"sort"
 	"time"
 
+	"github.com/DataDog/datadog-traceroute/packets"
 	"golang.org/x/sys/unix"
 )
 
@@ -43,15 +44,42 @@ func NewNetWorld(scripts ...FlowScript) *NetWorld {
 	return &NetWorld{Scripts: scripts, flows: map[string]*flowSt{}}
 }
 
-func (n *NetWorld) flow(p *Probe) *flowSt {
-	k := p.FlowKey()
+// FlowID is the identity of a flow in the world: the wire tuple plus the sending handle. The tuple alone
+// is not enough: two runs that do not overlap in time may be handed the same ephemeral port by the kernel
+// and would then be merged into one flow (with one script and one probe table) although they are unrelated.
+func FlowID(p *Probe, sink int) string {
+	return fmt.Sprintf("%s@%d", p.FlowKey(), sink)
+}
+
+func (n *NetWorld) flow(p *Probe, sink int) *flowSt {
+	k := FlowID(p, sink)
 	fs := n.flows[k]
 	if fs == nil {
+		// a SACK connection is registered at accept time, before the handle that will probe it is known
+		if pend := n.flows[p.FlowKey()]; pend != nil && pend.haveTCP && len(pend.probes) == 0 {
+			delete(n.flows, p.FlowKey())
+			for i, o := range n.Order {
+				if o == pend.key {
+					n.Order[i] = k
+				}
+			}
+			pend.key = k
+			n.flows[k] = pend
+			return pend
+		}
 		fs = &flowSt{idx: len(n.Order), key: k, probes: map[int]*Probe{}}
 		n.flows[k] = fs
 		n.Order = append(n.Order, k)
 	}
 	return fs
+}
+
+// FlowAt returns the state of the flow a handle's probe belongs to (nil if unknown).
+func (n *NetWorld) FlowAt(p *Probe, sink int) *flowSt {
+	if fs := n.flows[FlowID(p, sink)]; fs != nil {
+		return fs
+	}
+	return n.flows[p.FlowKey()]
 }
 
 // FlowOf returns the flow index of a key (or -1).
@@ -70,7 +98,23 @@ func (n *NetWorld) OnRead(w *Wire, source int) []Sched {
 	if n.Sack == nil {
 		return nil
 	}
-	return n.Sack.acceptPending(n)
+	// The connection a SACK run dials is completed by the real kernel; connect() may return a moment before
+	// the listener's accept queue shows it (the final ACK is handled in a softirq). Nothing in the bubble
+	// is blocked meanwhile, so without a wait the virtual clock could jump over the whole handshake timeout
+	// on a busy machine. The first read of a handle that filters for SYN-ACKs therefore waits (in real time,
+	// bounded, once per handle) for the queue to become readable.
+	wait := false
+	if source >= 0 && source < len(w.Sources) && !n.Sack.waited[source] {
+		sp := w.Sources[source].Spec
+		if len(sp) > 0 && sp[len(sp)-1].FilterType == packets.FilterTypeSYNACK {
+			if n.Sack.waited == nil {
+				n.Sack.waited = map[int]bool{}
+			}
+			n.Sack.waited[source] = true
+			wait = true
+		}
+	}
+	return n.Sack.acceptPending(n, wait)
 }
 
 func (n *NetWorld) OnProbe(w *Wire, sink int, raw []byte, p *Probe, perr error, dst netip.AddrPort) []Sched {
@@ -78,7 +122,7 @@ func (n *NetWorld) OnProbe(w *Wire, sink int, raw []byte, p *Probe, perr error, 
 		n.BadProbe++
 		return nil
 	}
-	fs := n.flow(p)
+	fs := n.flow(p, sink)
 	ttl := int(p.TTL)
 	var out []Sched
 	if n.Flood != nil && len(fs.probes) == 0 {
@@ -373,6 +417,7 @@ type SackServer struct {
 	Accepts  int
 	Remotes  []netip.AddrPort
 	fillers  []net.Conn
+	waited   map[int]bool
 }
 
 // NewSackServer listens on addr (a 127/8 address) with an ephemeral or given port.
@@ -429,7 +474,7 @@ func NewSackServer(addr netip.Addr, port uint16, cfg SackCfg) (*SackServer, erro
 }
 
 // acceptPending accepts every connection in the queue without blocking and fabricates its SYN-ACK.
-func (s *SackServer) acceptPending(n *NetWorld) []Sched {
+func (s *SackServer) acceptPending(n *NetWorld, wait bool) []Sched {
 	if s.ln == nil {
 		return nil
 	}
@@ -439,6 +484,14 @@ func (s *SackServer) acceptPending(n *NetWorld) []Sched {
 	}
 	var out []Sched
 	rc.Control(func(fd uintptr) {
+		if wait {
+			pfd := []unix.PollFd{{Fd: int32(fd), Events: unix.POLLIN}}
+			for i := 0; i < 5; i++ {
+				if _, err := unix.Poll(pfd, 40); err != unix.EINTR {
+					break
+				}
+			}
+		}
 		for {
 			nfd, sa, err := unix.Accept4(int(fd), unix.SOCK_NONBLOCK|unix.SOCK_CLOEXEC)
 			if err != nil {
